@@ -192,26 +192,136 @@ type Switch struct {
 	To    int    `json:"t"`
 }
 
-// Policy decides, at a yield of the turn holder, which task runs next.
-// It returns the task index to run (may be cur). runnable lists the tasks that
-// have started and not finished, in index order.
-type Policy func(yield uint64, site uint32, cur int, runnable []int) int
+// Policy decides, at a yield of the turn holder, which task runs next. All of
+// its state lives here and is touched only by //go:norace code: the policy is
+// consulted by whichever task holds the turn, and those accesses must not be
+// visible to the race detector either.
+type Policy struct {
+	Kind     string // explicit | bernoulli | rr | preempt | pct
+	Param    int
+	Seed     uint64
+	Est      uint64 // estimated total number of yields (pct)
+	Switches []Switch
+
+	rng  uint64
+	idx  int
+	prio [32]int
+	cps  []uint64
+}
+
+//go:norace
+func (p *Policy) rand() uint64 {
+	p.rng += 0x9e3779b97f4a7c15
+	z := p.rng
+	z = (z ^ (z >> 30)) * 0xbf58476d1ce4e5b9
+	z = (z ^ (z >> 27)) * 0x94d049bb133111eb
+	return z ^ (z >> 31)
+}
+
+//go:norace
+func (p *Policy) init() {
+	p.rng = p.Seed
+	p.idx = 0
+	if p.Kind == "pct" {
+		d := p.Param
+		if d < 1 {
+			d = 1
+		}
+		est := p.Est
+		if est < 10 {
+			est = 10
+		}
+		for i := range p.prio {
+			p.prio[i] = d + 1 + int(p.rand()%1000)
+		}
+		p.cps = p.cps[:0]
+		for i := 0; i < d; i++ {
+			p.cps = append(p.cps, 1+p.rand()%est)
+		}
+	}
+}
+
+// next returns the task to run (may be cur). run lists the tasks that have
+// started and not finished, in index order.
+//
+//go:norace
+func (p *Policy) next(y uint64, site uint32, cur int, run []int) int {
+	switch p.Kind {
+	case "explicit":
+		for p.idx < len(p.Switches) && p.Switches[p.idx].Yield < y {
+			p.idx++
+		}
+		if p.idx < len(p.Switches) && p.Switches[p.idx].Yield == y {
+			to := p.Switches[p.idx].To
+			p.idx++
+			return to
+		}
+		return cur
+	case "bernoulli":
+		q := p.Param
+		if q < 1 {
+			q = 1
+		}
+		if p.rand()%uint64(q) != 0 {
+			return cur
+		}
+		return run[p.rand()%uint64(len(run))]
+	case "rr":
+		q := uint64(p.Param)
+		if q < 1 {
+			q = 1
+		}
+		if y%q != 0 {
+			return cur
+		}
+		for i, t := range run {
+			if t == cur {
+				return run[(i+1)%len(run)]
+			}
+		}
+		return run[0]
+	case "preempt":
+		if y == uint64(p.Param) && cur == 0 {
+			for _, t := range run {
+				if t != 0 {
+					return t
+				}
+			}
+		}
+		return cur
+	default: // pct
+		for i, cp := range p.cps {
+			if cp == y && cur < len(p.prio) {
+				p.prio[cur] = len(p.cps) - i
+			}
+		}
+		best := run[0]
+		for _, t := range run {
+			if t < len(p.prio) && p.prio[t] > p.prio[best] {
+				best = t
+			}
+		}
+		return best
+	}
+}
 
 type task struct {
 	g    uintptr
 	done bool
+	reg  bool
 }
 
 var (
-	turn      int // index of the task that may run; -1 = coordinator
-	tasks     []task
-	policy    Policy
-	yieldNo   uint64
-	switches  []Switch
-	inCall    []bool // task is inside an operation of interest (set by harness)
-	overlaps  uint64 // switches taken while >=2 tasks were mid-operation
-	schedStop bool
-	schedBudg uint64
+	turn       int // index of the task that may run; -1 = coordinator
+	tasks      []task
+	policy     *Policy
+	yieldNo    uint64
+	switches   []Switch
+	inCall     []bool // task is inside an operation of interest (set by harness)
+	overlaps   uint64 // switches taken while >=2 tasks were mid-operation
+	schedStop  bool
+	finished   int
+	schedBudg  uint64
 	schedPanic interface{}
 )
 
@@ -266,7 +376,7 @@ func schedYield(site uint32) {
 	if len(r) <= 1 {
 		return
 	}
-	next := policy(yieldNo, site, me, r)
+	next := policy.next(yieldNo, site, me, r)
 	if next == me || next < 0 || next >= len(tasks) || tasks[next].g == 0 || tasks[next].done {
 		return
 	}
@@ -312,16 +422,18 @@ type SchedResult struct {
 // recovered value to obtain a stack trace string.
 //
 //go:norace
-func RunTasks(fns []func(), pol Policy, stepBudget uint64, stackFn func() string) SchedResult {
+func RunTasks(fns []func(), pol *Policy, stepBudget uint64, stackFn func() string) SchedResult {
 	n := len(fns)
 	tasks = make([]task, n)
 	inCall = make([]bool, n)
 	policy = pol
+	policy.init()
 	yieldNo = 0
 	steps = 0
 	schedBudg = stepBudget
 	switches = nil
 	overlaps = 0
+	finished = 0
 	turn = -1
 	res := SchedResult{Panics: make([]interface{}, n), Stacks: make([]string, n)}
 	doneCount := 0
@@ -333,36 +445,33 @@ func RunTasks(fns []func(), pol Policy, stepBudget uint64, stackFn func() string
 		startTask(i, fns[i], &res, stackFn)
 	}
 	// wait until every goroutine has registered its g
-	for {
-		all := true
-		for i := range tasks {
-			if loadG(i) == 0 {
-				all = false
-			}
-		}
-		if all {
-			break
-		}
+	for loadRegistered() < n {
 		runtime.Gosched()
 	}
 	turn = 0
-	for {
-		doneCount = 0
-		for i := range tasks {
-			if loadDone(i) {
-				doneCount++
-			}
-		}
-		if doneCount == n {
-			break
-		}
+	for loadFinished() < n {
 		runtime.Gosched()
 	}
+	_ = doneCount
 	mode = modeOff
 	res.Switches = switches
 	res.Yields = yieldNo
 	res.Overlaps = overlaps
 	return res
+}
+
+//go:norace
+func loadFinished() int { return finished }
+
+//go:norace
+func loadRegistered() int {
+	n := 0
+	for i := range tasks {
+		if tasks[i].reg {
+			n++
+		}
+	}
+	return n
 }
 
 //go:norace
@@ -379,6 +488,7 @@ func startTask(i int, fn func(), res *SchedResult, stackFn func() string) {
 //go:norace
 func taskBody(i int, fn func(), res *SchedResult, stackFn func() string) {
 	tasks[i].g = getg()
+	tasks[i].reg = true
 	waitTurn(i)
 	defer taskExit(i, res, stackFn)
 	fn()
@@ -394,6 +504,10 @@ func taskExit(i int, res *SchedResult, stackFn func() string) {
 	}
 	inCall[i] = false
 	tasks[i].done = true
+	// the runtime recycles g structures: a goroutine started later (e.g. the
+	// interval-set generator) must not be mistaken for this finished task
+	tasks[i].g = 0
+	finished++
 	// hand the turn to the lowest runnable task, if any
 	for j := range tasks {
 		if tasks[j].g != 0 && !tasks[j].done {
